@@ -344,3 +344,6 @@ B("c10-graphcoloring-no-tril", "C10", "C10.R7", (L + "graph_coloring/generator.p
 B("c10-graphcoloring-diag", "C10", "C10.R7", (L + "graph_coloring/generator.py", "RandomGenerator.__call__", "expr", "jnp.tril(adj_matrix, k=-1)", "jnp.tril(adj_matrix, k=0)"))
 B("c10-graphcoloring-asym", "C10", "C10.R7", (L + "graph_coloring/generator.py", "RandomGenerator.__call__", "delete", "adj_matrix += adj_matrix.T"))
 T("c10-twin-graphcoloring-triu", "C10", (L + "graph_coloring/generator.py", "RandomGenerator.__call__", "expr", "jnp.tril(adj_matrix, k=-1)", "jnp.triu(adj_matrix, k=1)"))
+B("c10-minesweeper-population", "C10", "C10.R8", (L + "minesweeper/utils.py", "create_flat_mine_locations", "expr", "num_rows * num_cols", "num_rows * num_rows"))
+B("c10-cvrp-no-capacity-check", "C10", "C10.R8", (R + "cvrp/env.py", "CVRP.__init__", "expr", "self.max_capacity < self.max_demand", "self.max_capacity < 0"))
+T("c10-twin-cvrp-flipped", "C10", (R + "cvrp/env.py", "CVRP.__init__", "expr", "self.max_capacity < self.max_demand", "self.max_demand > self.max_capacity"))
